@@ -80,6 +80,11 @@ const (
 	c08QBlock1  = 1 // genuine QC (all replicas) for block 1 at view 1
 	c08QForged  = 2 // QC without signature for an unknown block
 	c08QNone    = 3 // sync info without QC
+	// junk QCs for the SAME block as a valid QC reported by honest replicas
+	c08QSubB1      = 4 // QC for block 1 signed by ID alone (below the quorum)
+	c08QNilB1      = 5 // QC for block 1 without signature
+	c08QViewB1     = 6 // the genuine signatures for block 1 under the wrong view 7
+	c08QGenRelabel = 7 // QC for the genesis block claiming view 3
 )
 
 const c08JunkView = 424242 // BLS "garbage": a genuine signature over this unrelated view
@@ -323,6 +328,18 @@ func (w *c08World) build(m c08Msg) hotstuff.TimeoutMsg {
 		si.SetQC(w.qcB1)
 	case c08QForged:
 		si.SetQC(w.forged)
+	case c08QSubB1:
+		pc, err := w.ess[w.pos(m.ID)].Authority().CreatePartialCert(w.b1)
+		if err != nil {
+			w.t.Fatal(err)
+		}
+		si.SetQC(hotstuff.NewQuorumCert(pc.Signature(), 1, w.b1.Hash()))
+	case c08QNilB1:
+		si.SetQC(hotstuff.NewQuorumCert(nil, 1, w.b1.Hash()))
+	case c08QViewB1:
+		si.SetQC(hotstuff.NewQuorumCert(w.qcB1.Signature(), 7, w.b1.Hash()))
+	case c08QGenRelabel:
+		si.SetQC(hotstuff.NewQuorumCert(nil, 3, hotstuff.GetGenesis().Hash()))
 	}
 	if m.TCKind != 0 {
 		si.SetTC(w.senderTC(m.TCKind, m.TCView))
@@ -387,6 +404,9 @@ func (w *c08World) wellFormed(m c08Msg) bool {
 	if m.QKind == c08QBlock1 && (!w.hasB1 || !w.agg) {
 		return false
 	}
+	if (m.QKind == c08QSubB1 || m.QKind == c08QViewB1) && (!w.hasB1 || w.pos(m.ID) < 0) {
+		return false
+	}
 	if m.TCKind != 0 && (m.TCView == 0 || w.q() < 3 || w.initial != len(w.ids)) {
 		return false
 	}
@@ -409,8 +429,8 @@ func (w *c08World) firstAdvance(m c08Msg) string {
 	if m.TCKind == 2 {
 		return "Reject"
 	}
-	if !w.agg && m.QKind == c08QForged {
-		return "Reject"
+	if !w.agg && (m.QKind == c08QForged || m.QKind >= c08QSubB1) {
+		return "Reject" // the simple rule verifies the plain QC of the sync info
 	}
 	if m.TCKind == 1 {
 		return fmt.Sprintf("(Ok %d)", m.TCView)
@@ -426,14 +446,23 @@ func (w *c08World) gIDs(k int) string {
 	return "[" + strings.Join(xs, ";") + "]"
 }
 
-func (w *c08World) gQC(k int) (term string, digest string) {
-	switch k {
+func (w *c08World) gQC(m c08Msg) (term string, digest string) {
+	switch m.QKind {
 	case c08QGenesis:
 		return "(Some qc_gen)", "(Some 1)"
 	case c08QBlock1:
 		return fmt.Sprintf("(Some (qc_b1 %s %s))", w.gsch, w.gIDs(len(w.ids))), "(Some 2)"
 	case c08QForged:
 		return "(Some qc_forged)", "(Some 3)"
+	case c08QSubB1:
+		d := 100 + w.pos(m.ID)
+		return fmt.Sprintf("(Some (mkQC (Some (GM %s [%d] (MBlock 2))) 1 2 %d))", w.gsch, m.ID, d), fmt.Sprintf("(Some %d)", d)
+	case c08QNilB1:
+		return "(Some (mkQC None 1 2 5))", "(Some 5)"
+	case c08QViewB1:
+		return fmt.Sprintf("(Some (mkQC (Some (GM %s %s (MBlock 2))) 7 2 4))", w.gsch, w.gIDs(len(w.ids))), "(Some 4)"
+	case c08QGenRelabel:
+		return "(Some (mkQC None 3 1 6))", "(Some 6)"
 	}
 	return "None", "None"
 }
@@ -459,7 +488,7 @@ func (w *c08World) gallina(m c08Msg) string {
 	case c08VTwo:
 		vs = fmt.Sprintf("(Some (G2 %s %d %d %s))", s, m.ID, m.Who, mv)
 	}
-	qt, qd := w.gQC(m.QKind)
+	qt, qd := w.gQC(m)
 	switch m.MKind {
 	case c08MHonest:
 		ms = fmt.Sprintf("(Some (G %s %d %d (MTimeout %d %d %s)))", s, m.ID, m.ID, m.ID, m.View, qd)
@@ -1192,6 +1221,38 @@ func TestVerifC08(t *testing.T) {
 					ms = append(ms, honest(5, ids[q-1])...)
 					c08RunSync(v, syn, w, c0, ms, "boundary")
 				}
+				// aggregate rule: a correctly signed timeout whose QC is junk FOR THE SAME BLOCK as the valid
+				// QC the honest replicas report (and for another block), in front of / inside the quorum;
+				// repeated because the certificate code walks Go maps (fresh maps, fresh order each time)
+				if agg && c0 == 5 {
+					for _, jk := range []int{c08QSubB1, c08QNilB1, c08QViewB1, c08QGenRelabel, c08QForged} {
+						hk := c08QBlock1
+						if jk == c08QGenRelabel {
+							hk = c08QGenesis
+						}
+						x := c08Msg{ID: last, View: 5, QKind: jk}
+						y := c08Msg{ID: ids[0], View: 5, QKind: hk}
+						if !w.wellFormed(x) || !w.wellFormed(y) {
+							continue
+						}
+						for rep := 0; rep < v.Pick(6, 16); rep++ {
+							ms = []c08Msg{x}
+							for _, id := range ids[:q-1] {
+								ms = append(ms, c08Msg{ID: id, View: 5, QKind: hk})
+							}
+							if rep%2 == 1 { // junk in the middle, and a second junk reporter when the quorum allows
+								ms[0], ms[1] = ms[1], ms[0]
+								if q >= 4 {
+									ms[2] = c08Msg{ID: ids[1], View: 5, QKind: jk}
+									if !w.wellFormed(ms[2]) {
+										ms[2] = c08Msg{ID: ids[1], View: 5, QKind: hk}
+									}
+								}
+							}
+							c08RunSync(v, syn, w, c0, ms, "junk-qc-same-block")
+						}
+					}
+				}
 				// claimed ids outside the configuration (one that agrees with a member in its low byte)
 				for _, out := range []uint64{ids[0] + 256, 4294967294} {
 					x := c08Msg{ID: out, View: 5, VKind: c08VForeign, Who: ids[0], MKind: c08MAbsent}
@@ -1351,7 +1412,7 @@ func TestVerifC08(t *testing.T) {
 				case 1:
 					m.MKind, m.Who = 1+v.rng.Intn(4), ids[v.rng.Intn(n)]
 				case 2:
-					m.QKind = 1 + v.rng.Intn(3)
+					m.QKind = 1 + v.rng.Intn(7)
 				case 3:
 					m.TCKind, m.TCView = 1+v.rng.Intn(2), c0+uint64(v.rng.Intn(3))-1
 				case 4:
